@@ -33,6 +33,9 @@ type Dir struct {
 type dbState struct {
 	path   string
 	closed bool
+	// block checksums are verified on reads (goleveldb: opt.Options.Strict, zero value = DefaultStrict,
+	// a non-zero value REPLACES the default; opt.ReadOptions.Strict can add it per read)
+	blockChecksum bool
 }
 
 var (
@@ -45,6 +48,10 @@ var (
 	GetFaults   bool // Db.Get / Db.Has may fail with an I/O error
 	CloseFaults bool // Db.Close may fail (fault budget)
 	ReadFault   error
+	// DamagedBlocks: the table block holding the looked-up record was damaged on disk after it was
+	// written (bit rot). goleveldb's contract: with block checksums verified the read fails with a
+	// corruption error; without, the damaged block is used as it is (the key is not found).
+	DamagedBlocks bool
 )
 
 func InstallDisk() {
@@ -53,6 +60,7 @@ func InstallDisk() {
 	Effects, CrashAt, FaultBudget = 0, -1, 0
 	FaultLog = nil
 	GetFaults = false
+	DamagedBlocks = false
 	CloseFaults = false
 	ReadFault = NewError("leveldb: injected read I/O error")
 	Override("github.com/syndtr/goleveldb/leveldb.OpenFile", dmOpenFile)
@@ -185,7 +193,11 @@ func dmOpenFile(path string, o *opt.Options) (*leveldb.DB, error) {
 	d.Locked = true
 	d.HasFiles = true
 	db := new(leveldb.DB)
-	dbs[db] = &dbState{path: path}
+	strict := opt.DefaultStrict
+	if o != nil && o.Strict != 0 {
+		strict = o.Strict
+	}
+	dbs[db] = &dbState{path: path, blockChecksum: strict&opt.StrictBlockChecksum != 0}
 	afterEffect()
 	return db, nil
 }
@@ -236,6 +248,12 @@ func dmGet(db *leveldb.DB, key []byte, ro *opt.ReadOptions) ([]byte, error) {
 	}
 	if GetFaults && NondetBool("getfault") {
 		return nil, ReadFault
+	}
+	if DamagedBlocks {
+		if st.blockChecksum || (ro != nil && ro.Strict&opt.StrictBlockChecksum != 0) {
+			return nil, NewError("leveldb/table: corruption on data-block: checksum mismatch")
+		}
+		return nil, leveldb.ErrNotFound
 	}
 	d := Disk[st.path]
 	for i := range d.KV {
